@@ -327,7 +327,7 @@ pub fn explore_all(cfgs: &[Config], p: &SeqParams) -> (SeqStats, Collector) {
         .min(cfgs.len().max(1));
     std::thread::scope(|s| {
         for _ in 0..workers {
-            s.spawn(|| {
+            std::thread::Builder::new().stack_size(crate::common::WORKER_STACK).spawn_scoped(s, || {
                 loop {
                     let i = next.fetch_add(1, Ordering::SeqCst);
                     if i >= cfgs.len() {
@@ -340,7 +340,7 @@ pub fn explore_all(cfgs: &[Config], p: &SeqParams) -> (SeqStats, Collector) {
                     r.0.merge(st);
                     r.1.merge(col);
                 }
-            });
+            }).expect("spawn worker");
         }
     });
     let (mut stats, col, min_depth) = result.into_inner().unwrap();
